@@ -84,7 +84,11 @@ func (t *sleepTransaction) Sleep() error {
 	case util.StateAwake:
 		t.startSleep()
 	default:
-		return fmt.Errorf("cannot call Sleep() in %q state", state)
+		// The transaction is already in the store: finish it, otherwise it
+		// would stay there and swallow a later DISCONNECT from the gateway.
+		err := fmt.Errorf("cannot call Sleep() in %q state", state)
+		t.Fail(err)
+		return err
 	}
 	return nil
 }
